@@ -338,31 +338,57 @@ func (c *GroupCoordinator) LeaveGroup(ctx context.Context, req *kmsg.LeaveGroupR
 		c.mu.Unlock()
 		return mkResp(protocol.UNKNOWN_SERVER_ERROR)
 	}
-	if state == nil {
-		c.mu.Unlock()
-		return mkResp(protocol.UNKNOWN_MEMBER_ID)
+	// Up to v2 the request names one member at the top level; from v3 on the
+	// leaving members are listed in Members and each gets its own result.
+	batched := req.Version >= 3
+	leaving := []kmsg.LeaveGroupRequestMember{{MemberID: req.MemberID}}
+	if batched {
+		leaving = req.Members
 	}
-	if _, ok := state.members[req.MemberID]; !ok {
-		c.mu.Unlock()
-		return mkResp(protocol.UNKNOWN_MEMBER_ID)
+	results := make([]kmsg.LeaveGroupResponseMember, 0, len(leaving))
+	removed := 0
+	for _, m := range leaving {
+		result := kmsg.NewLeaveGroupResponseMember()
+		result.MemberID = m.MemberID
+		result.InstanceID = m.InstanceID
+		result.ErrorCode = protocol.UNKNOWN_MEMBER_ID
+		if state != nil {
+			if _, ok := state.members[m.MemberID]; ok {
+				delete(state.members, m.MemberID)
+				delete(state.assignments, m.MemberID)
+				if state.leaderID == m.MemberID {
+					state.leaderID = ""
+				}
+				result.ErrorCode = protocol.NONE
+				removed++
+			}
+		}
+		results = append(results, result)
 	}
-	delete(state.members, req.MemberID)
-	delete(state.assignments, req.MemberID)
+	mkLeaveResp := func() *kmsg.LeaveGroupResponse {
+		if !batched {
+			return mkResp(results[0].ErrorCode)
+		}
+		r := mkResp(protocol.NONE)
+		r.Members = results
+		return r
+	}
+	if removed == 0 {
+		c.mu.Unlock()
+		return mkLeaveResp()
+	}
 
 	if len(state.members) == 0 {
 		delete(c.groups, req.Group)
-		resp := mkResp(protocol.NONE)
+		resp := mkLeaveResp()
 		if err := c.persistGroupLocked(ctx, req.Group, nil); err != nil {
 			resp.ErrorCode = protocol.UNKNOWN_SERVER_ERROR
 		}
 		c.mu.Unlock()
 		return resp
 	}
-	if state.leaderID == req.MemberID {
-		state.leaderID = ""
-	}
 	state.startRebalance(0)
-	resp := mkResp(protocol.NONE)
+	resp := mkLeaveResp()
 	if err := c.persistGroupLocked(ctx, req.Group, state); err != nil {
 		resp.ErrorCode = protocol.UNKNOWN_SERVER_ERROR
 	}
